@@ -325,16 +325,21 @@ fn perm255(r: &mut Rng, n: usize, favourite: u8) -> Vec<u8> {
 
 /// Search for a first block that is stored raw although its Huffman table was kept (steered by the encoder event log),
 /// then append a block that is coded with "the same" table.
-fn near_break_even(r: &mut Rng) -> Option<(Vec<u8>, String)> {
+///
+/// `same_distance`: all planted repeats of the first block use one distance D, and the second block starts with
+/// literals followed by a repeat at exactly that distance - so that anything the discarded block did to the
+/// repeat offset history (or any other per-frame encoder state) would be used by the next block.
+fn near_break_even(r: &mut Rng, same_distance: bool) -> Option<(Vec<u8>, String)> {
     let fav = r.below(255) as u8;
+    let dist = 1000usize;
     for attempt in 0..40 {
         let mut b1 = perm255(r, BLOCK, fav);
         // plant a few short repeats: each sequence costs about as much as it saves
-        let repeats = attempt % 8;
+        let repeats = if same_distance { 1 + attempt % 7 } else { attempt % 8 };
         for k in 0..repeats {
             let len = 5 + (k % 2);
-            let src = r.usize(0, BLOCK / 2);
             let dst = r.usize(BLOCK / 2 + 10, BLOCK - 10);
+            let src = if same_distance { dst - dist } else { r.usize(0, BLOCK / 2) };
             let c = b1[src..src + len].to_vec();
             b1[dst..dst + len].copy_from_slice(&c);
         }
@@ -349,6 +354,29 @@ fn near_break_even(r: &mut Rng) -> Option<(Vec<u8>, String)> {
             return Some((probe, format!("near_break_even probe attempt {attempt}")));
         }
         let (fallback_kept, _) = stale_table_situation(&ev[..ev.len().min(3)]);
+        let first_block_fell_back = ev.iter().find_map(|e| match e {
+            EncEvent::Block { raw_fallback, .. } => Some(*raw_fallback),
+            _ => None,
+        }) == Some(true);
+        let first_block_sequences = ev.iter().find_map(|e| match e {
+            EncEvent::Sequences { num_sequences } => Some(*num_sequences),
+            _ => None,
+        }).unwrap_or(0);
+        if same_distance {
+            if first_block_fell_back && first_block_sequences > 0 {
+                // second block: fresh match-free bytes, then a repeat at distance `dist`, then compressible data
+                let mut b2 = perm255(r, 3000, fav);
+                let p = b2.len();
+                let copy: Vec<u8> = b2[p - dist..p - dist + 60].to_vec();
+                b2.extend_from_slice(&copy);
+                let tail = r.usize(5000, 60_000);
+                b2.extend((0..tail).map(|_| if r.chance(2, 3) { fav } else { r.below(255) as u8 }));
+                let mut data = b1;
+                data.extend_from_slice(&b2);
+                return Some((data, format!("discarded block with {first_block_sequences} matches at distance {dist}, next block repeats that distance (attempt {attempt})")));
+            }
+            continue;
+        }
         if fallback_kept {
             // second block: every symbol present, the favourite very frequent: same rank order at the top
             let n2 = r.usize(3000, BLOCK);
@@ -459,9 +487,9 @@ pub fn run(args: &Args) -> i32 {
             .collect();
         directed.push(("reuse".into(), jobs));
         // near break even blocks (steered by the encoder event log)
-        for _ in 0..3 {
-            match near_break_even(&mut r) {
-                Some((data, what)) => directed.push(("near_break_even".into(), vec![FrameJob { data, level: 1, pattern: vec![usize::MAX], what }])),
+        for k in 0..6 {
+            match near_break_even(&mut r, k % 2 == 1) {
+                Some((data, what)) => directed.push((if k % 2 == 1 { "discarded_block_state".into() } else { "near_break_even".into() }, vec![FrameJob { data, level: 1, pattern: vec![usize::MAX], what }])),
                 None => rec.count("near_break_even_searches_without_hit", 1),
             }
         }
